@@ -424,6 +424,7 @@ def bpe_train(char_list, vocab_size=10000, min_count=1, max_char_code=0):
     code_list = [pair_to_replace]
     code_lengths[new_code] = pair_length(pair_to_replace, code_lengths, max_char_code)
 
+    last_pair_pending = True
     while len(tokens) < vocab_size:
         for i, char_array in enumerate(compressed_chars):
             compressed_chars[i], pair_counts = contract_and_count_pairs(
@@ -449,7 +450,14 @@ def bpe_train(char_list, vocab_size=10000, min_count=1, max_char_code=0):
             code_list.append(pair_to_replace)
             code_lengths[new_code] = pair_length(pair_to_replace, code_lengths, max_char_code)
         else:
+            last_pair_pending = False
             break
+
+    if last_pair_pending:
+        # The vocabulary budget was reached: the last learned pair has not been
+        # merged into the training encodings yet.
+        for i, char_array in enumerate(compressed_chars):
+            compressed_chars[i] = contract_pair(char_array, pair_to_replace, new_code)
 
     return tokens, code_list, compressed_chars, max_char_code
 
